@@ -137,13 +137,17 @@ def run_mq(repo, layers, qconfig, activation_bits=4, fold=None,
 
   def qmfj(pe, a, k):
     captured["jm"] = a[0].attrs["obj"] if isinstance(a[0], Mock) else a[0]
-    captured["custom_objects"] = a[1] if len(a) > 1 else None
+    captured["custom_objects"] = a[1] if len(a) > 1 else k.get(
+        "custom_objects")
     return Mock("qmodel", {"layers": q_layers or []})
 
   def ctf(pe, a, k):
     return (model, list(fold or []))
-  pe = PE(repo, module_overrides={UM: {"quantized_model_from_json": qmfj,
+  # the library's own loader runs (it registers the library classes in the
+  # dictionary it is given); only Keras' model_from_json is a stand-in
+  pe = PE(repo, module_overrides={UM: {"model_from_json": qmfj,
                                        "convert_to_folded_model": ctf}})
+  pe.opaque_ext = True
   f = pe.lookup_global("model_quantize", um)
   custom = {"user": "object"}
   pe.call(f, [model, qconfig, activation_bits],
